@@ -1,4 +1,5 @@
 import FsDb.Model.WPool
+import FsDb.Proofs.Pool
 /-!
 # C16 — The worker pool runs every accepted job exactly once and stops cleanly
 
@@ -6,9 +7,13 @@ Proved on the model of the deferred-send path (`FsDb/Model/WPool.lean`, repaired
 conservation (no event is lost or duplicated, in any reachable state), and: whenever nothing can
 move any more, every event has been delivered to the channel — without any further Send.  The pin's
 flusher has a reachable quiescent state with an undelivered event (`C16_handoff_witness`).
-What happens after the channel (a worker takes each event once, Stop waits for them), the timeout
-of `Send` (prompt return) and the Stop/Run/Send orders are exercised on the real pool by the check,
-not proved.
+The second half of this file is about the model of the WHOLE pool (`FsDb/Model/Pool.lean`: Run, Send
+with its three-way select, deferred path, flusher, channel, workers, Stop with its two waits, any
+number of Run/Stop cycles): `C16_pool_conservation`, `C16_exactly_once`, `C16_no_drop_while_running`,
+`C16_quiescent_all_executed`, `C16_send_never_waits`, `C16_stop_progress`, `C16_no_start_after_stop`.
+Checked on the real pool rather than proved: that the critical sections and selects of the code are
+the model's steps (skeleton ties; orchestrated hand-off, send-before-run, stop-before-run, run-twice,
+restart, double Stop, random stress); Go's `WaitGroup` is modelled by its counter only.
 -/
 namespace FsDb.C16
 open FsDb.WPool
@@ -146,5 +151,205 @@ theorem C16_handoff_witness :
 example : ∃ st, run true (init [1, 2]) [.send, .flush, .flush, .flush, .send, .flush, .flush, .flush] = some st ∧
     quiescent true st = true ∧ st.delivered = [2, 1] := by
   refine ⟨_, rfl, ?_, ?_⟩ <;> decide
+
+end FsDb.C16
+
+/-! ## the whole pool -/
+namespace FsDb.C16
+open FsDb.Pool
+
+/-- **Conservation.**  For EVERY sequence of actions of any number of Sends, the flusher, the workers,
+    Run and Stop (disabled ones skipped): every job accepted by Send is in exactly one place — in the
+    hand of a Send, in the channel, in the deferred list, in the flusher's hand, being executed,
+    executed, or given up by a Stop — with its multiplicity. -/
+theorem C16_pool_conservation (nw : Nat) (acts : List Pool.Act) (j : Nat) :
+    (Pool.run (Pool.init nw) acts).accepted.count j = (places (Pool.run (Pool.init nw) acts)).count j :=
+  ((Pool.Inv.init nw).run acts).cons j
+
+/-- **Exactly once.**  If the accepted jobs are distinct, no job is executed twice, and an executed
+    job was not also given up. -/
+theorem C16_exactly_once (nw : Nat) (acts : List Pool.Act) (hd : (Pool.run (Pool.init nw) acts).accepted.Nodup) (j : Nat) :
+    (Pool.run (Pool.init nw) acts).executed.count j ≤ 1 ∧
+    (j ∈ (Pool.run (Pool.init nw) acts).executed → j ∉ (Pool.run (Pool.init nw) acts).dropped) := by
+  have hc := C16_pool_conservation nw acts j
+  generalize Pool.run (Pool.init nw) acts = s at *
+  have h1 : s.accepted.count j ≤ 1 := List.nodup_iff_count.mp hd j
+  simp only [places, List.count_append] at hc
+  refine ⟨by omega, ?_⟩
+  intro he hdrop
+  have := List.count_pos_iff.mpr he
+  have := List.count_pos_iff.mpr hdrop
+  omega
+
+/-- **Nothing is given up while the pool is running**: only a Stop makes the pool drop a job. -/
+theorem C16_no_drop_while_running (s s' : Pool.St) (a : Pool.Act) (hs : Pool.step s a = some s')
+    (hr : s.running = true) (ha : a ≠ .stop) : s'.dropped = s.dropped := by
+  cases a <;> simp only [Pool.step] at hs
+  case run => split at hs <;> cases hs <;> rfl
+  case send j => split at hs <;> cases hs <;> rfl
+  case selPush j => split at hs <;> cases hs; rfl
+  case selDone j => split at hs
+                    · rename_i hg; simp [hr] at hg
+                    · cases hs
+  case selTimeout j => split at hs <;> cases hs; rfl
+  case lazyPush j =>
+    split at hs
+    · split at hs <;> cases hs <;> rfl
+    · cases hs
+  case flush =>
+    cases hf : s.fpc with
+    | off => rw [hf] at hs; cases hs
+    | loop => rw [hf] at hs; simp only at hs; cases hl : s.list <;> rw [hl] at hs <;> cases hs <;> rfl
+    | sending j => rw [hf] at hs; simp only at hs; split at hs <;> cases hs; rfl
+  case flushDone =>
+    cases hf : s.fpc with
+    | off => rw [hf] at hs; cases hs
+    | loop => rw [hf] at hs; cases hs
+    | sending j => rw [hf] at hs; simp only [hr] at hs; cases hs
+  case take =>
+    cases hch : s.ch with
+    | nil => rw [hch] at hs; cases hs
+    | cons j rest => rw [hch] at hs; simp only at hs; split at hs <;> cases hs; rfl
+  case finish j => split at hs <;> cases hs; rfl
+  case workerExit => split at hs
+                     · rename_i hg; simp [hr] at hg
+                     · cases hs
+  case stop => exact absurd rfl ha
+
+/-- nothing but new Sends, Run or Stop can happen -/
+def Quiet (s : Pool.St) : Prop :=
+  (∀ j, Pool.step s (.selPush j) = none) ∧ (∀ j, Pool.step s (.selTimeout j) = none) ∧
+  (∀ j, Pool.step s (.lazyPush j) = none) ∧ Pool.step s .flush = none ∧ Pool.step s .take = none ∧
+  (∀ j, Pool.step s (.finish j) = none)
+
+/-- **Every accepted job is executed, without further Sends.**  While the pool is running (at least
+    one worker), whenever nothing can move any more, every accepted job has been executed (or had been
+    given up by an earlier Stop): nothing is stuck in a Send, in the deferred list, in the flusher, in
+    the channel or in a worker. -/
+theorem C16_quiescent_all_executed (nw : Nat) (hnw : 0 < nw) (acts : List Pool.Act)
+    (hr : (Pool.run (Pool.init nw) acts).running = true) (hq : Quiet (Pool.run (Pool.init nw) acts)) (j : Nat) :
+    (Pool.run (Pool.init nw) acts).accepted.count j =
+      (Pool.run (Pool.init nw) acts).executed.count j + (Pool.run (Pool.init nw) acts).dropped.count j := by
+  have hi := (Pool.Inv.init nw).run acts
+  have hi2 := (Pool.Inv2.init nw).run acts
+  have hnw' : (Pool.run (Pool.init nw) acts).nw = nw := by
+    have : ∀ (s : Pool.St) (as : List Pool.Act), (Pool.run s as).nw = s.nw := by
+      intro s as
+      induction as generalizing s with
+      | nil => rfl
+      | cons a as ih =>
+        simp only [Pool.run]
+        cases hs : Pool.step s a with
+        | none => exact ih s
+        | some s' =>
+          simp only [Option.getD]
+          rw [ih s']
+          cases a <;> simp only [Pool.step] at hs <;> (try split at hs) <;> (try split at hs) <;> (try cases hs) <;> (try rfl)
+          all_goals (first | (cases hf : s.fpc <;> rw [hf] at hs <;> simp only at hs <;> (try split at hs) <;> (try cases hs) <;> (try rfl) <;>
+                                (cases hl : s.list <;> rw [hl] at hs <;> cases hs <;> rfl))
+                           | (cases hch : s.ch <;> rw [hch] at hs <;> simp only at hs <;> (try split at hs) <;> (try cases hs) <;> rfl)
+                           | (cases hst : s.stop <;> rw [hst] at hs <;> simp only at hs <;> split at hs <;> cases hs <;> rfl))
+    exact this _ _
+  generalize Pool.run (Pool.init nw) acts = s at *
+  obtain ⟨q1, q2, q3, q4, q5, q6⟩ := hq
+  have hrun := hi.runOf hr
+  have hsel : s.sel = [] := by
+    cases hs : s.sel with
+    | nil => rfl
+    | cons x xs => have := q2 x; simp [Pool.step, hs] at this
+  have hlazy : s.lazy = [] := by
+    cases hs : s.lazy with
+    | nil => rfl
+    | cons x xs =>
+      have := q3 x
+      simp only [Pool.step, hs, List.mem_cons, true_or, if_true] at this
+      split at this <;> cases this
+  have hexec : s.execing = [] := by
+    cases hs : s.execing with
+    | nil => rfl
+    | cons x xs => have := q6 x; simp [Pool.step, hs] at this
+  have hw := hi.workers hrun.1
+  have hex := hi2.noExit hr
+  have hidle : s.idleW = nw := by rw [hexec] at hw; simp at hw; omega
+  have hch : s.ch = [] := by
+    cases hs : s.ch with
+    | nil => rfl
+    | cons x xs => simp [Pool.step, hs, hidle, hnw] at q5
+  have hcap : 0 < s.cap := by rw [hi2.capEq]; omega
+  have hfpc : s.fpc = .off := by
+    cases hf : s.fpc with
+    | off => rfl
+    | loop => simp only [Pool.step, hf] at q4; split at q4 <;> cases q4
+    | sending x => simp [Pool.step, hf, hch, hcap] at q4
+  have hlm : s.lazyM = false := by
+    cases hl : s.lazyM with
+    | false => rfl
+    | true => exact absurd hfpc (hi.flusher.mp hl)
+  have hlist : s.list = [] := by
+    cases hs : s.list with
+    | nil => rfl
+    | cons x xs => have := hi.covers hr (by rw [hs]; simp); rw [hlm] at this; cases this
+  have := hi.cons j
+  simp only [places, hsel, hlazy, hch, hlist, hfpc, hexec, hand, List.count_append, List.count_nil] at this
+  omega
+
+/-- **Send returns promptly**: a Send inside its select can always take the timeout branch, and the
+    deferred path (`lazySend`) never waits for a worker or for the flusher. -/
+theorem C16_send_never_waits (s : Pool.St) (j : Nat) :
+    (j ∈ s.sel → (Pool.step s (.selTimeout j)).isSome = true) ∧ (j ∈ s.lazy → (Pool.step s (.lazyPush j)).isSome = true) := by
+  constructor
+  · intro h; simp [Pool.step, h]
+  · intro h; simp only [Pool.step, h, if_true]; split <;> rfl
+
+/-- **Stop cannot dead-lock.**  While a Stop is in progress (in any reachable state) some goroutine can
+    move, and it is not a new Send or Run: Stop itself, a Send leaving its select through `ctx.Done()`,
+    a deferred push, the flusher, a worker finishing its job or exiting. -/
+theorem C16_stop_progress (nw : Nat) (acts : List Pool.Act) (hst : (Pool.run (Pool.init nw) acts).stop ≠ .idle) :
+    ∃ a, (∀ j, a ≠ .send j) ∧ a ≠ .run ∧ (Pool.step (Pool.run (Pool.init nw) acts) a).isSome = true := by
+  have hi := (Pool.Inv.init nw).run acts
+  generalize Pool.run (Pool.init nw) acts = s at *
+  have hso := hi.stopOf hst
+  cases hstop : s.stop with
+  | idle => exact absurd hstop hst
+  | cancelled =>
+    cases hsel : s.sel with
+    | cons x xs => exact ⟨.selDone x, by intro j; simp, by simp, by simp [Pool.step, hsel, hso.1]⟩
+    | nil =>
+      cases hlz : s.lazy with
+      | cons x xs =>
+        refine ⟨.lazyPush x, by intro j; simp, by simp, ?_⟩
+        simp only [Pool.step, hlz, List.mem_cons, true_or, if_true]; split <;> rfl
+      | nil =>
+        cases hf : s.fpc with
+        | off => exact ⟨.stop, by intro j; simp, by simp, by simp [Pool.step, hstop, hsel, hlz, hf]⟩
+        | loop =>
+          refine ⟨.flush, by intro j; simp, by simp, ?_⟩
+          simp only [Pool.step, hf]; split <;> rfl
+        | sending x => exact ⟨.flushDone, by intro j; simp, by simp, by simp [Pool.step, hf, hso.1]⟩
+  | waitedSend =>
+    cases hex : s.execing with
+    | cons x xs => exact ⟨.finish x, by intro j; simp, by simp, by simp [Pool.step, hex]⟩
+    | nil =>
+      by_cases hid : s.idleW = 0
+      · exact ⟨.stop, by intro j; simp, by simp, by simp [Pool.step, hstop, hex, hid]⟩
+      · exact ⟨.workerExit, by intro j; simp, by simp, by simp [Pool.step, hso.1]; omega⟩
+
+/-- **No job starts after Stop has returned** (until the next Run): no worker is left, nothing is
+    being executed, no worker can take a job. -/
+theorem C16_no_start_after_stop (nw : Nat) (acts : List Pool.Act) (hrm : (Pool.run (Pool.init nw) acts).runM = false) :
+    (Pool.run (Pool.init nw) acts).execing = [] ∧ Pool.step (Pool.run (Pool.init nw) acts) .take = none := by
+  have hi := (Pool.Inv.init nw).run acts
+  generalize Pool.run (Pool.init nw) acts = s at *
+  obtain ⟨e1, e2, _, _, _, e6, _⟩ := hi.stopped hrm
+  exact ⟨e2, by simp [Pool.step, e6]⟩
+
+/-- non-vacuity: 1 worker (channel of 2), five jobs: the first is taken, two fill the channel, two take
+    the deferred path; the worker drains everything; then Stop -/
+example :
+    let s := Pool.run (Pool.init 1) [.run, .send 1, .selPush 1, .take, .send 2, .selPush 2, .send 3, .selPush 3,
+      .send 4, .selTimeout 4, .lazyPush 4, .send 5, .selTimeout 5, .lazyPush 5, .flush,
+      .finish 1, .take, .flush, .finish 2, .take, .flush, .flush, .finish 3, .take, .flush, .flush,
+      .finish 5, .take, .finish 4]
+    s.executed = [4, 5, 3, 2, 1] ∧ s.running = true ∧ s.dropped = [] := by decide
 
 end FsDb.C16
